@@ -288,6 +288,10 @@ class _XX:
                 ops.append("x setslice %s %s %d %d" % (h, o, off, n))
                 if level:
                     ops.append("x setslice %s %s %d %d" % (h, h, off, n))
+        # array::set(const value &): string, int32, double
+        ops += ["x setv %s s fill:5:41" % h, "x setv %s s -" % h, "x setv %s i 01020304" % h, "x setv %s d 0102030405060708" % h]
+        if level:
+            ops += ["x setv %s s fill:63:41" % h, "x setv %s s fill:64:41" % h, "x setv %s s fill:200:41" % h]
         ops += ["x clone %s %s" % (h, o), "x copy %s %s" % (h, o), "x drop %s" % h]
         return ops
 
@@ -342,7 +346,7 @@ class _XX:
                 h = r.choice(hs)
                 o = r.choice([x for x in hs if x != h])
                 if arr:
-                    op = r.choice(["set", "set", "append", "insert", "setslice", "clone", "clone", "copy", "drop"])
+                    op = r.choice(["set", "set", "append", "insert", "setslice", "clone", "clone", "copy", "drop", "setv"])
                     n = r.choice([0, 1, 2, 5, 8, 60, 64, 65, 130])
                     d = r.choice(["fill:%d:41" % n if n else "-", "zero:%d" % n])
                     if op in ("set", "append"):
@@ -353,6 +357,8 @@ class _XX:
                         lines.append("x setslice %s %s %d %d" % (h, r.choice(hs), r.choice([0, 1, 2, 5, 60]), r.choice([0, 1, 2, 5, 64])))
                     elif op == "drop":
                         lines.append("x drop %s" % h)
+                    elif op == "setv":
+                        lines.append("x setv %s %s" % (h, r.choice(["s fill:%d:41" % n if n else "s -", "i 0a0b0c0d", "d 0102030405060708"])))
                     else:
                         lines.append("x %s %s %s" % (op, h, o))
                 else:
